@@ -18,6 +18,27 @@ pub fn check_value(v: &RVal, rec: &mut Rec) -> Verdict {
         rec.nontrivial(key_of(&text));
     }
     rec.sample(|| format!("{} => {:?}", render(v), trunc(&text, 200)));
+    // a decode that fails must leave nothing behind on this thread: two damaged prefixes of the text first
+    // (cut at a position derived from the text, and inside its first string literal)
+    {
+        let cut = |at: usize| -> &str {
+            let mut at = at.min(text.len());
+            while !text.is_char_boundary(at) {
+                at -= 1;
+            }
+            &text[..at]
+        };
+        let at = (key_of(&text) as usize) % (text.len() + 1);
+        let mut rejected = 0;
+        for t in [Some(cut(at)), text.find('"').map(|q| cut(q + 3))].into_iter().flatten() {
+            if !matches!(crate::runner::fueled(t.len(), || libhaystack::encoding::zinc::decode::from_str(t)), Ok(Ok(_))) {
+                rejected += 1;
+            }
+        }
+        if rejected > 0 {
+            rec.class("preceded-by-a-rejected-decode-on-the-same-thread");
+        }
+    }
     let back = match zinc_decode(&text) {
         Ok(b) => b,
         Err(f) => return prefix_sig("C01:zinc-rt", f, &shape(v)),
@@ -40,8 +61,97 @@ pub fn check_value(v: &RVal, rec: &mut Rec) -> Verdict {
     diff_verdict_strict_zero("C01:zinc-rt:in-list", &wrapped, &project(&back2), &text2, rec)
 }
 
+/// One value per (shape, depth): `depth` collections nested in each other, closed by a scalar.
+/// shape 0 lists, 1 dicts, 2 grids (in a cell), 3 grids (in grid meta), 4 alternating list/dict/grid.
+pub fn deep_value(shape: u8, depth: usize) -> RVal {
+    let mut v = RVal::Str("leaf".into());
+    for level in 0..depth {
+        let kind = match shape {
+            0 => 0,
+            1 => 1,
+            2 => 2,
+            3 => 3,
+            _ => level % 3,
+        };
+        v = match kind {
+            0 => RVal::List(vec![RVal::num(level as f64), v]),
+            1 => RVal::Dict([("a".to_string(), v), ("n".to_string(), RVal::num(level as f64))].into_iter().collect()),
+            2 => RVal::Grid(RGrid {
+                meta: None,
+                cols: vec![RCol { name: "a".into(), meta: None }, RCol { name: "b".into(), meta: None }],
+                rows: vec![[("a".to_string(), RVal::Marker), ("b".to_string(), v)].into_iter().collect()],
+            }),
+            _ => RVal::Grid(RGrid {
+                meta: Some([("m".to_string(), v)].into_iter().collect()),
+                cols: vec![RCol { name: "a".into(), meta: None }],
+                rows: vec![],
+            }),
+        };
+    }
+    v
+}
+
+/// The decoder bounds nesting at 256 levels (repair da31585); up to that bound depth must not matter.
+/// Runs on a thread with a large stack (every level costs native stack in encoder, decoder, projection and drop).
+fn deep_ladder(ctx: &mut Ctx) {
+    let depths: Vec<usize> = vec![1, 2, 3, 8, 16, 32, 63, 64, 65, 100, 126, 127, 128, 129, 160, 200, 230, 250];
+    let results = std::thread::Builder::new()
+        .stack_size(1 << 30)
+        .spawn(move || {
+            let mut rec = Rec::new();
+            let mut fails = vec![];
+            for shape in 0u8..5 {
+                for &d in &depths {
+                    rec.evals += 1;
+                    rec.nontrivial(key_of(&format!("deep:{shape}:{d}")));
+                    rec.class(&format!("deep-nesting:shape{shape}"));
+                    let v = deep_value(shape, d);
+                    let r = crate::runner::guarded(|| -> Verdict {
+                        let hv = build(&v);
+                        let text = match zinc_encode(&hv) {
+                            Ok(t) => t,
+                            Err(f) => return prefix_sig("C01:zinc-rt:deep", f, &format!("shape{shape}")),
+                        };
+                        let back = match zinc_decode(&text) {
+                            Ok(b) => b,
+                            Err(f) => return prefix_sig("C01:zinc-rt:deep", f, &format!("shape{shape}:depth{d}")),
+                        };
+                        match diff(&v, &project(&back)).diffs.first() {
+                            None => Verdict::Pass,
+                            Some(x) => Verdict::fail(format!("C01:zinc-rt:deep:diff:{}:shape{shape}", x.code), format!("depth {d}: {} at {}: {}", x.code, trunc(&x.path, 80), x.detail)),
+                        }
+                    });
+                    let r = match r {
+                        Ok(v) => v,
+                        Err(p) => Verdict::fail(format!("C01:zinc-rt:deep:{}", crate::runner::panic_sig(&p)), format!("depth {d} shape {shape}: {}", p.msg)),
+                    };
+                    let r = match r {
+                        Verdict::Fail { sig, msg } => Verdict::Fail { sig, msg: trunc(&msg, 400) },
+                        p => p,
+                    };
+                    if r.is_fail() {
+                        fails.push((r, serde_json::json!({"deep": {"shape": shape, "depth": d}})));
+                        break; // deeper ones of this shape fail alike
+                    }
+                }
+            }
+            (rec, fails)
+        })
+        .expect("spawn")
+        .join();
+    match results {
+        Ok((rec, fails)) => {
+            ctx.rec.merge(rec);
+            for (v, c) in fails {
+                ctx.report("zinc-rt-deep", v, c);
+            }
+        }
+        Err(_) => ctx.inconclusive.push("the deep-nesting ladder thread died".into()),
+    }
+}
+
 pub fn run(ctx: &mut Ctx) {
-    ctx.rule("generated: well-formed values of all 18 kinds (proptest, structured); oracle: decode(encode(v)) strictly equals v (RVal projection: kind, f64 bits up to sign of zero, unit ids, every string, Ref dis, instant+offset+city, collections in order; Null tag == absent tag); non-trivial: not a singleton/Bool kind; distinct by Zinc text");
+    ctx.rule("generated: well-formed values of all 18 kinds (proptest, structured); oracle: decode(encode(v)) strictly equals v (RVal projection: kind, f64 bits up to sign of zero, unit ids, every string, Ref dis, instant+offset+city, collections in order; Null tag == absent tag); non-trivial: not a singleton/Bool kind; distinct by Zinc text; every decode is preceded by the (rejected) decode of two damaged prefixes of the same text on the same thread; plus a deep-nesting ladder: lists / dicts / grids in cells / grids in grid meta / alternating, 18 depths from 1 to 250 (the decoder's documented bound is 256 levels)");
     ctx.assume("chrono / chrono-tz give the true zone rules; values are built through public constructors only");
     let depth = ctx.tier.pick(3, 5) as u32;
     let total = ctx.tier.pick(64_000, 1_600_000);
@@ -51,10 +161,31 @@ pub fn run(ctx: &mut Ctx) {
         &move || top_value(GenCfg::wf(depth)),
         &|v, rec| check_value(v, rec),
     );
+    deep_ladder(ctx);
 }
 
 pub fn replay(kind: &str, case: &J, rec: &mut Rec) -> Verdict {
     match kind {
+        "zinc-rt-deep" => {
+            let (shape, d) = (case["deep"]["shape"].as_u64().unwrap_or(0) as u8, case["deep"]["depth"].as_u64().unwrap_or(1) as usize);
+            std::thread::Builder::new()
+                .stack_size(1 << 30)
+                .spawn(move || {
+                    let v = deep_value(shape, d);
+                    let hv = build(&v);
+                    let r = zinc_encode(&hv).and_then(|t| zinc_decode(&t));
+                    match r {
+                        Ok(back) => match diff(&v, &project(&back)).diffs.first() {
+                            None => Verdict::Pass,
+                            Some(x) => Verdict::fail(format!("C01:zinc-rt:deep:diff:{}:shape{shape}", x.code), x.detail.clone()),
+                        },
+                        Err(f) => prefix_sig("C01:zinc-rt:deep", f, &format!("shape{shape}:depth{d}")),
+                    }
+                })
+                .expect("spawn")
+                .join()
+                .unwrap_or_else(|_| Verdict::fail("C01:zinc-rt:deep:panic", "the deep round trip panicked"))
+        }
         "zinc-rt" => match RVal::from_json(case) {
             Ok(v) => check_value(&v, rec),
             Err(e) => Verdict::fail("infra:bad-replay", e),
